@@ -1,0 +1,7 @@
+//go:build !verif
+
+package goast
+
+import "go/ast"
+
+func (r *DecoratorResolver) verifStep(file *ast.File, step string) {}
